@@ -1152,6 +1152,15 @@ def rule_c15_tokens(r):
             continue
         with open(meta["unit"]) as fd:
             raw = c_lex(fd.read())
+        # `long double` written in the double-precision source: the keyword rewrite only knows `double`, so the pair becomes
+        # `long float` (single) and `long long double` (long double), neither of which is a type
+        for i_ in range(len(raw) - 1):
+            if raw[i_] == ("id", "long") and raw[i_ + 1][0] == "id" and raw[i_ + 1][1] in ("double", "float"):
+                ctx = " ".join(t for _, t in raw[max(0, i_ - 3):i_ + 5])
+                r.violation("sasmodels/generate.py", "convert_type", "%s: `long %s` in the source" % (name, raw[i_ + 1][1]), 0,
+                            "the source of %s declares a `long %s` (near: %s): the keyword rewrite turns it into `long float` for single and "
+                            "`long long double` for long double precision, which no compiler accepts" % (name, raw[i_ + 1][1], ctx[:80]))
+                break
         conv = meta.get("conv") or {}
         if "f32" not in conv or "f64" not in conv:
             raise AnalysisError("generator wrote no converted sources for %s" % name)
@@ -1222,7 +1231,17 @@ def rule_c15_builds(r):
                 r.violation("sasmodels/generate.py", "convert_type", "single-precision OpenCL source parses", 0, msg[:300])
             return
         raise
-    f64 = cfront.map_units("sa.rules.extra3:f32_unit", config="opencl")
+    try:
+        f64 = cfront.map_units("sa.rules.extra3:f32_unit", config="opencl")
+    except AnalysisError as exc:
+        import re
+        from .. import cfront as _cf
+        m = re.search(r"clang failed on (\S+): \[[\"'](.*?):(\d+):\d+: error: (.*?)[\"'],", str(exc))
+        if not m:
+            raise
+        r.violation(_cf.repo_path(m.group(2)), m.group(1), "double-precision OpenCL source of the model is accepted by the OpenCL C front end",
+                    int(m.group(3)), "clang -x cl rejects the source: %s" % m.group(4))
+        return
     for name, fns in sorted(f32.items()):
         base = name.split("@")[0]
         ref = f64.get(base + "@opencl")
@@ -1741,3 +1760,181 @@ def re_digits(s):
     import re
     m = re.search(r"(\d+)$", s)
     return int(m.group(1)) if m else None
+
+
+# --------------------------------------------------------------------------------------------- C14: <F>^2 = <F^2> at q -> 0
+Q0_VALUES = {"sas_3j1x_x": 1, "sas_sinx_x": 1, "sas_2J1x_x": 1, "sas_J0": 1, "sas_J1": 0, "sas_JN": None, "sas_Si": 0,
+             "sinc": 1, "sas_j0": 1, "expm1": 0, "sas_erf": 0}
+
+
+def q0_unit(unit, extra):
+    """Worker: for a model that reports the amplitude, Fq is interpreted symbolically at q = 0 (special functions take their
+    value at zero, quadrature loops are summed with the folded weight sums): the two outputs must satisfy F1^2 = F2, the
+    property's `equality as q tends to zero for monodisperse particles`.  Both outputs share the quadrature, so a missing or
+    doubled interval factor on one of them, a special branch that forgets the weight sum, or a weight table that does not sum
+    to 2 breaks the identity."""
+    from .. import nf
+    from ..nf import CInterp
+    out = []
+    if not unit.meta.get("have_Fq") or "Fq" not in unit.functions or unit.body(unit.fn("Fq")) is None:
+        return out
+    fq = unit.fn("Fq")
+    ff, ll = unit.where(fq)
+    tables = _table_sums(unit)
+    lib_funcs = {nm for nm, f_ in unit.functions.items() if unit.body(f_) is not None and
+                 ("/models/lib/" in (unit.where(f_)[0] or "") or "/models/" not in (unit.where(f_)[0] or ""))}
+    it = CInterp({k_: v_ for k_, v_ in unit.functions.items() if k_ not in nf._FUNCS}, opaque=lib_funcs - set(nf._FUNCS))
+    it.sum_loops = True
+    it.nested_sums = True
+    it.numeric_decide = True
+    it.tables = tables
+    it.zero_values = {k: v for k, v in Q0_VALUES.items() if v is not None}
+    outs = {}
+    argv = []
+    for i, p in enumerate(unit.params(fq)):
+        qt = p["type"]["qualType"]
+        if i == 0:
+            argv.append(sp.Integer(0))
+        elif i in (1, 2):
+            argv.append(nf.Ref(outs, "F1" if i == 1 else "F2"))
+        elif "*" in qt or "[" in qt:
+            argv.append(sym("vec_" + p["name"]))
+        else:
+            argv.append(sp.Symbol(p["name"], positive=True))
+    try:
+        it.call("Fq", argv)
+    except AnalysisError as exc:
+        out.append(("R-C14-q0", "note", ff, "%s:Fq" % unit.name, "Fq at q = 0", ll, "not decided: %s" % str(exc)[:140]))
+        return out
+    except Exception as exc:
+        out.append(("R-C14-q0", "note", ff, "%s:Fq" % unit.name, "Fq at q = 0", ll, "not decided: %s: %s" % (type(exc).__name__, str(exc)[:120])))
+        return out
+    f1, f2 = outs.get("F1"), outs.get("F2")
+    if f1 is None or f2 is None:
+        out.append(("R-C14-q0", "note", ff, "%s:Fq" % unit.name, "Fq at q = 0", ll, "outputs not written on this path"))
+        return out
+
+    def fold(e):
+        e = sp.sympify(e)
+        for s_ in list(e.free_symbols):
+            nm = str(s_)
+            if nm.startswith("sum_"):
+                tab, bound = nm[4:].rsplit("_", 1)
+                if tab in tables:
+                    nb = int(bound) if bound.isdigit() else None
+                    total = sum(tables[tab][:nb]) if nb else sum(tables[tab])
+                    e = e.subs(s_, nf.num(round(total, 9)))
+        return e
+    f1, f2 = fold(f1), fold(f2)
+    if f1.has(sp.nan, sp.zoo) or f2.has(sp.nan, sp.zoo):
+        out.append(("R-C14-q0", "note", ff, "%s:Fq" % unit.name, "Fq at q = 0", ll, "singular at q = 0 (the kernel never calls it there)"))
+        return out
+    opaque_left = [str(a.func) for a in sp.preorder_traversal(f1 * f2) if isinstance(a, sp.Function) and type(a).__name__ in lib_funcs]
+    try:
+        same = nf.equal(f1 ** 2, f2, trig=True)
+    except Exception:
+        same = None
+    if same:
+        out.append(("R-C14-q0", "ok", ff, "%s:Fq" % unit.name, "F1(0)^2 == F2(0)", ll, "F1(0) = %s" % str(sp.simplify(f1))[:100]))
+    elif same is False and not opaque_left:
+        ratio = sp.simplify(f2 / f1 ** 2)
+        out.append(("R-C14-q0", "violation", ff, "%s:Fq" % unit.name, "F1(0)^2 == F2(0)", ll,
+                    "at q = 0 the model returns F1 = %s and F2 = %s: F2/F1^2 = %s, not 1 - the two quadratures are normalised differently, "
+                    "so <F>^2 <= <F^2> (with equality for monodisperse particles at q -> 0) fails" % (str(sp.simplify(f1))[:80], str(sp.simplify(f2))[:80], ratio))
+                   )
+    else:
+        out.append(("R-C14-q0", "note", ff, "%s:Fq" % unit.name, "F1(0)^2 == F2(0)", ll, "not decided: symbolic residue %s" % str(sp.simplify(f1 ** 2 - f2))[:120]))
+    return out
+
+
+_q0_cache = None
+
+
+def rule_c14_q0(r):
+    global _q0_cache
+    if _q0_cache is None:
+        from .. import cfront
+        _q0_cache = cfront.map_units("sa.rules.extra3:q0_unit")
+    for unit, rows in sorted(_q0_cache.items()):
+        for row in rows:
+            _, status, f, fn, construct, line, detail = row
+            getattr(r, status)(f, fn, construct, line, detail)
+
+
+# --------------------------------------------------------------------------------------------- loops over constant tables stay inside them
+def tablebounds_unit(unit, extra):
+    """Worker: a `for` loop of model code whose body reads a constant table at the loop index runs `i = 0; i < B; i++`
+    with B no larger than the table (B is a literal after macro expansion: GAUSS_N).  `i <= GAUSS_N` reads one entry past the
+    weights and nodes; `i--` never terminates inside the table."""
+    from .. import cfront
+    from ..nf import c_text, c_strip
+    from ..ckernel import kids
+    import re
+    out = []
+    tables = {k: len(v) for k, v in _table_sums(unit).items()}
+    n = 0
+    for fname, fn in sorted(unit.functions.items()):
+        body = unit.body(fn)
+        if body is None:
+            continue
+        for st in cfront.walk(body):
+            if st.get("kind") != "ForStmt":
+                continue
+            parts = st.get("inner", [])
+            if len(parts) < 5:
+                continue
+            init, cond, inc, lbody = parts[0], parts[2], parts[3], parts[4]
+            var = None
+            ini = None
+            if init and init.get("kind") == "DeclStmt":
+                vd = [x for x in kids(init) if x.get("kind") == "VarDecl"]
+                if len(vd) == 1:
+                    var = vd[0]["name"]
+                    iv = kids(vd[0])
+                    ini = re.sub(r"\s+", "", c_text(iv[0])) if iv else None
+            elif init and init.get("kind") == "BinaryOperator" and init.get("opcode") == "=":
+                var = re.sub(r"\s+", "", c_text(kids(init)[0]))
+                ini = re.sub(r"\s+", "", c_text(kids(init)[1]))
+            if not var:
+                continue
+            used = set()
+            for x in cfront.walk(lbody):
+                if x.get("kind") == "ArraySubscriptExpr":
+                    b, i = kids(x)
+                    b0 = c_strip(b)
+                    if b0.get("kind") == "DeclRefExpr" and b0["referencedDecl"]["name"] in tables and re.sub(r"\s+", "", c_text(i)) == var:
+                        used.add(b0["referencedDecl"]["name"])
+            if not used:
+                continue
+            n += 1
+            ctxt = re.sub(r"\s+", "", c_text(cond)) if cond and cond.get("kind") else ""
+            itxt = re.sub(r"\s+", "", c_text(inc)) if inc and inc.get("kind") else ""
+            m = re.match(r"^%s<(\d+)$" % re.escape(var), ctxt)
+            size = min(tables[t] for t in used)
+            ok = ini == "0" and bool(m) and int(m.group(1)) <= size and itxt in (var + "++", "++" + var, var + "+=1")
+            f, l = unit.where(st)
+            out.append(("R-tablebounds", "ok" if ok else "violation", f, "%s:%s" % (unit.name, fname),
+                        "for (%s = %s; %s; %s) over %s[%d]" % (var, ini, ctxt, itxt, "/".join(sorted(used)), size), l,
+                        "index stays inside the table" if ok else
+                        "the loop must run %s = 0; %s < N; %s++ with N <= %d: as written it reads outside the constant table (or never ends)"
+                        % (var, var, var, size)))
+    return out
+
+
+_tb_cache = None
+
+
+def rule_tablebounds(r):
+    global _tb_cache
+    if _tb_cache is None:
+        from .. import cfront
+        _tb_cache = cfront.map_units("sa.rules.extra3:tablebounds_unit")
+    seen = set()
+    for unit, rows in sorted(_tb_cache.items()):
+        for row in rows:
+            _, status, f, fn, construct, line, detail = row
+            key = (f, line, construct)
+            if key in seen and status == "ok":
+                continue
+            seen.add(key)
+            getattr(r, status)(f, fn, construct, line, detail)
